@@ -208,3 +208,143 @@ def Field.wf {α : Type} : Field α → Prop
   | .flag _ => True
 
 end KawinV.SaveLoad
+
+/-!
+## Argument forwarding of the untrained surrogate getters (Surrogate.py, `else:` branches)
+
+Every getter of `GeneralSurrogate` / `BinarySurrogate` / `MulticomponentSurrogate` ends with
+`return self.therm.<same name>(a, b, c, name=name, *args, **kwargs)`.  What such a line does with the arguments
+of a call is Python's call binding, modelled here: the caller's call is bound to the getter's own signature
+(named parameters, `*args`, `**kwargs`), the forwarding line builds a new call (each named parameter handed on
+by position, by keyword, or not at all; then `*args`, then `**kwargs`), and that call is bound to the signature
+of the thermodynamics method.  How each getter hands each parameter on is NOT transcribed by hand: it is a row
+of `KawinV.Gen.C20.binaryForwarding / multiForwarding`, read off the running code with a recording mock on every run.
+-/
+namespace KawinV.Forward
+
+/-- how the forwarding line hands a parameter on -/
+inductive How where
+  | pos | kw | drop | other
+  deriving DecidableEq, Repr
+
+def How.ofString (s : String) : How :=
+  if s = "pos" then .pos else if s = "kw" then .kw else if s = "drop" then .drop else .other
+
+/-- one getter: the thermodynamics method it calls, whether it takes `*args, **kwargs`, its named parameters in
+order, the further keyword arguments of the thermodynamics method, and that method's parameter names in order -/
+structure Getter where
+  target : String
+  star : Bool
+  named : List (String × How)
+  extras : List (String × How)
+  tsig : List String
+
+/-- a row of the generated table -/
+abbrev Row := String × String × Bool × List (String × String) × List (String × String) × List String
+
+def Getter.ofRow (r : Row) : Getter :=
+  { target := r.2.1, star := r.2.2.1,
+    named := r.2.2.2.1.map (fun e => (e.1, How.ofString e.2)),
+    extras := r.2.2.2.2.1.map (fun e => (e.1, How.ofString e.2)),
+    tsig := r.2.2.2.2.2 }
+
+def Getter.names (g : Getter) : List String := g.named.map (·.1)
+
+/-- a Python call `f(*pos, **kw)` -/
+structure Call (β : Type) where
+  pos : List β
+  kw : List (String × β)
+
+inductive Err where
+  | tooMany
+  | multiple (p : String)
+  | unexpected (k : String)
+  deriving DecidableEq, Repr
+
+/-- first entry under key `k` -/
+def lookup {β : Type} : List (String × β) → String → Option β
+  | [], _ => none
+  | (k', v) :: r, k => if k' = k then some v else lookup r k
+
+/-- values of the getter's named parameters inside its body: positional arguments first, then the keyword of that
+name, then the default (`d name`: `None` phases are resolved to the first precipitate / the matrix phase) -/
+def namedVals {β : Type} (d : String → β) (kw : List (String × β)) : List (String × How) → List β → List (String × How × β)
+  | [], _ => []
+  | (n, h) :: ns, v :: vs => (n, h, v) :: namedVals d kw ns vs
+  | (n, h) :: ns, [] => (n, h, (lookup kw n).getD (d n)) :: namedVals d kw ns []
+
+/-- Python refuses the call to the getter itself: too many positional arguments / an unknown keyword for a getter
+without `*args, **kwargs`; a keyword for a parameter already given by position -/
+def checkS {β : Type} (g : Getter) (c : Call β) : Option Err :=
+  if !g.star && g.named.length < c.pos.length then some .tooMany
+  else match c.kw.find? (fun e => (g.names.take c.pos.length).contains e.1) with
+    | some e => some (.multiple e.1)
+    | none =>
+      if g.star then none
+      else match c.kw.find? (fun e => !g.names.contains e.1) with
+        | some e => some (.unexpected e.1)
+        | none => none
+
+def howOf (l : List (String × How)) (k : String) : How := (lookup l k).getD .kw
+
+/-- the call the forwarding line makes -/
+def forward {β : Type} (g : Getter) (d : String → β) (c : Call β) : Except Err (Call β) :=
+  match checkS g c with
+  | some e => .error e
+  | none =>
+    let nv := namedVals d c.kw g.named c.pos
+    let fpos := (nv.filter (fun e => e.2.1 == How.pos)).map (fun e => e.2.2)
+    let fkw := (nv.filter (fun e => e.2.1 == How.kw)).map (fun e => (e.1, e.2.2))
+    let args := c.pos.drop g.named.length
+    let kwargs := c.kw.filter (fun e => !g.names.contains e.1 && howOf g.extras e.1 == How.kw)
+    .ok { pos := fpos ++ args, kw := fkw ++ kwargs }
+
+/-- positional arguments against a parameter list (`none`: too many) -/
+def bindPos {β : Type} : List String → List β → Option (List (String × β))
+  | _, [] => some []
+  | [], _ :: _ => none
+  | p :: ps, v :: vs => (bindPos ps vs).map (fun r => (p, v) :: r)
+
+/-- binding of a call to a signature without `*args, **kwargs` (the thermodynamics methods): the arguments the
+method receives; parameters that are not listed keep the method's own default -/
+def bindT {β : Type} (sig : List String) (c : Call β) : Except Err (List (String × β)) :=
+  match bindPos sig c.pos with
+  | none => .error .tooMany
+  | some a =>
+    match c.kw.find? (fun e => !sig.contains e.1) with
+    | some e => .error (.unexpected e.1)
+    | none =>
+      match c.kw.find? (fun e => (sig.take c.pos.length).contains e.1) with
+      | some e => .error (.multiple e.1)
+      | none => .ok (a ++ c.kw)
+
+/-- what the thermodynamics method receives when the untrained getter is called with `c` -/
+def received {β : Type} (g : Getter) (d : String → β) (c : Call β) : Except Err (List (String × β)) :=
+  match forward g d c with
+  | .error e => .error e
+  | .ok f => bindT g.tsig f
+
+/-- the order in which a caller passes arguments by position: the getter's own parameters, then (through `*args`)
+the remaining parameters of the thermodynamics method -/
+def Getter.order (g : Getter) : List String := g.names ++ g.extras.map (·.1)
+
+/-- `received` hands every keyword of `c` and every positional argument on unchanged, under its own name -/
+def faithfulOn {β : Type} [DecidableEq β] (g : Getter) (d : String → β) (c : Call β) : Bool :=
+  match received g d c with
+  | .error _ => false
+  | .ok r => c.kw.all (fun e => lookup r e.1 == some e.2) &&
+             ((g.order.zip c.pos).all (fun e => lookup r e.1 == some e.2))
+
+/-- canonical calls of a getter, the value of parameter `n` being the string `v:n`: everything by keyword (binding
+treats a keyword for a leading parameter like the positional argument), everything by position, and the getter's own
+parameters by position with the rest by keyword -/
+def kwCall (g : Getter) : Call String :=
+  { pos := [], kw := g.order.map (fun n => (n, "v:" ++ n)) }
+
+def posCall (g : Getter) : Call String :=
+  { pos := g.order.map (fun n => "v:" ++ n), kw := [] }
+
+def mixedCall (g : Getter) : Call String :=
+  { pos := g.names.map (fun n => "v:" ++ n), kw := g.extras.map (fun e => (e.1, "v:" ++ e.1)) }
+
+end KawinV.Forward
